@@ -3,6 +3,7 @@ CONSTANTS
   P = 6
   Offsets = {0, 3}
   MaxSpans = 2
+  MinSpans = 1
   MaxCopy = 0
   Filters = {"none"}
   Strides = {1, 2, 3}
